@@ -67,6 +67,13 @@ class _AsOverlap:
 
 
 def run(ck, tier):
+    ck.rule("R-C16-verbatim", "spans and problem texts are expressed in the text JavaScript handed over: lint, ignore_lint and apply_suggestion build their Document from that text by chars().collect() and copies only (no stripping of a byte-order mark, no trimming, no folding of line endings)")
+    try:
+        from . import c08
+        c08.verbatim_source(ck, facts.load(), "R-C16-verbatim", lambda g: g.name.startswith("harper_wasm::"), "Documents built by the wasm Linter", 2)
+    except Exception as e:
+        import traceback
+        ck.refuted("R-C16-verbatim", "internal:%s" % type(e).__name__, "", "rule could not run: %s" % traceback.format_exc()[-600:])
     ck.rule("R-C16-overlap", "the lints the JavaScript-facing linter returns do not overlap: harper_core::remove_overlaps keeps a non-overlapping subset (sorted by span start, swept with a running end, elements only dropped) and Linter::lint passes every lint through it before anything else consumes the vector (rule instances of R-C13-subset / -sorted / -sweep / -placement)")
     try:
         from . import c13
